@@ -275,8 +275,33 @@ func runOne(st Stim) Trace {
 			}
 			w.mu.Unlock()
 			if ok {
+				w.mu.Lock()
+				cp := -1
+				for _, inf := range w.byGID {
+					if inf.g == a.G {
+						cp = inf.copy
+					}
+				}
+				w.mu.Unlock()
 				ch <- a.B
 				ev.Applied = true
+				// the released handler goroutine must have got as far as its reply on the wire (or the end of the processing)
+				// before the history goes on, however long the scheduler takes to run it
+				end := time.Now().Add(2 * time.Second)
+				for time.Now().Before(end) {
+					w.mu.Lock()
+					fin := !w.busy[a.G]
+					if !fin && a.B == "piggy" {
+						for _, l := range w.log {
+							fin = fin || (l.E == "reply" && l.Copy == cp && l.Ran)
+						}
+					}
+					w.mu.Unlock()
+					if fin {
+						break
+					}
+					time.Sleep(50 * time.Microsecond)
+				}
 			}
 		case "lapse":
 			// the exchange lifetime of everything stored so far elapses; no sweep runs: the entries stay in the table, expired
